@@ -255,10 +255,45 @@ def impl_render_low(arg):
     text, _ = render(items, arg[1])
     return lowlevel_in_mode(2, text)
 
+# ---- history: what an EARLIER reading in the same process leaves behind must not change a later,
+# independent reading (kinds 0, 1); one Parser instance reading several strings accumulates (kind 2)
+# arg = [kind, earlier, items, layout, suffix]; earlier element = ['R', raw text] | ['D', items, layout]
+def history_texts(arg):
+    earlier = []
+    for e in arg[1]:
+        if chr(e[0]) == 'R':
+            earlier.append(S(e[1]))
+        else:
+            earlier.append(render(decode_items(e[1]), e[2])[0])
+    last = render(decode_items(arg[2]), arg[3])[0] + S(arg[4])
+    return earlier, last
+
+def impl_history(arg):
+    kind = arg[0]
+    earlier, last = history_texts(arg)
+    if kind == 2:
+        return parse_seq(2, earlier + [last])
+    from pybtex import errors
+    import pybtex.database
+    from pybtex.database.input.bibtex import Parser
+    for t in earlier:
+        try:
+            with errors.capture():
+                if kind == 0:
+                    pybtex.database.parse_string(t, 'bibtex')
+                else:
+                    Parser().parse_string(t)
+        except Exception:
+            pass
+    return parse_in_mode(2, last)
+
 def model_arg(fn, arg):
     if fn in (10, 11):
         text, _ = render(decode_items(arg[0]), arg[1])
         return [text]
+    if fn == 12:
+        earlier, last = history_texts(arg)
+        return [earlier + [last] if arg[0] == 2 else [last]]
     return arg
 
 FUNCS = {
@@ -266,10 +301,11 @@ FUNCS = {
     5: ('bibtex.month_names', impl_months, 'X'),
     10: ('parse_string(render(layout, abstract_db), "bibtex")', impl_render_parse, ('T', 'X', ('T', 'N', 'N', 'N', 'N', 'N', 'N'))),
     11: ('list(LowLevelParser(render(layout, abstract_db)))', impl_render_low, ('T', 'X', ('T', 'N', 'N', 'N', 'N', 'N', 'N'))),
+    12: ('history: earlier readings, then parse_string(render(layout, abstract_db)) [kind 0/1: independent readers; 2: one Parser instance]', impl_history, ('T', 'N', ('L', 'X'), 'X', 'X', 'S')),
 }
 
 def canon(fn, r):
-    if fn == 10:
+    if fn in (10, 12):
         return canon_parse(r, clean_only=False)
     if fn == 11:
         if isinstance(r, list) and r and r[0] == 0:
@@ -285,10 +321,14 @@ def describe(fn, arg):
         return {'abstract_db': items, 'layout': arg[1], 'rendering': render(items, arg[1])[0]}
     if fn == 3:
         return {'text': S(arg[0])}
+    if fn == 12:
+        earlier, last = history_texts(arg)
+        return {'kind': {0: 'independent parse_string calls', 1: 'independent Parser() instances', 2: 'one Parser instance, several strings'}.get(arg[0]),
+                'earlier_sources': earlier, 'last_source': last}
     return {'fn': fn}
 
 def nontrivial(fn, arg, out):
-    if fn == 10:
+    if fn in (10, 12):
         return out[0] == 0 and len(out[1][0]) > 0
     return bool(out)
 
@@ -302,10 +342,28 @@ def oracle(fn, arg, out):
         if sorted((S(k), S(v)) for k, v in out) != sorted(MONTHS.items()):
             return 'the predefined month macros are not jan..dec -> January..December'
         return None
+    if fn == 12:
+        kind, suffix = arg[0], S(arg[4])
+        if kind == 2:
+            if suffix or any(chr(e[0]) == 'R' for e in arg[1]):
+                return None if out[0] != 2 else 'a non-pybtex exception escaped the reader'
+            items, spelled = [], []
+            for e in list(arg[1]) + [[0, arg[2], arg[3]]]:
+                its = decode_items(e[1])
+                items += its
+                spelled += render(its, e[2])[1]
+            return check_denotation(items, spelled, out, exact=True)
+        items = decode_items(arg[2])
+        _, spelled = render(items, arg[3])
+        return check_denotation(items, spelled, out, exact=not suffix)
     if fn != 10:
         return None
     items = decode_items(arg[0])
     text, spelled = render(items, arg[1])
+    return check_denotation(items, spelled, out, exact=True)
+
+def check_denotation(items, spelled, out, exact):
+    """what was read == what the abstract database denotes (exact) / starts with it (a raw suffix follows)"""
     if out[0] != 0:
         return 'reading a valid rendering raised'
     ents, pre, errs = out[1]
@@ -313,6 +371,9 @@ def oracle(fn, arg, out):
     got_e = [[S(e[1]), S(e[2]), S(e[3]), [[S(k), S(v)] for k, v in e[4]],
               [[S(r), [[[S(w) for w in grp] for grp in p] for p in ps]] for r, ps in e[5]]] for e in ents]
     got_p = [S(p[1]) for p in pre]
+    if not exact:
+        got_e = got_e[:len(want_e)]
+        got_p = got_p[:len(want_p)]
     if [e[0] for e in got_e] != [e[0] for e in want_e]:
         return 'entry keys %r, the database denotes %r' % ([e[0] for e in got_e], [e[0] for e in want_e])
     for g, w in zip(got_e, want_e):
@@ -324,7 +385,7 @@ def oracle(fn, arg, out):
             return 'entry %s: persons %r, the database denotes %r' % (g[0], g[4], w[4])
     if got_p != want_p:
         return 'preamble %r, the database denotes %r' % (got_p, want_p)
-    if len(errs) != nprob:
+    if exact and len(errs) != nprob:
         return '%d problems reported for a rendering with %d duplicate fields / repeated keys' % (len(errs), nprob)
     return None
 
@@ -422,7 +483,7 @@ def random_value(rng, macros):
 
 RULE = ('exhaustive-small: abstract databases with <= 2 entries x <= 2 fields over a pool of 8 value shapes (plain, number, nested braces, irregular whitespace, month macro, @string macro + concatenation, empty, quotes inside braces), crossed with layouts {brace, paren, alternating} x {braced, quoted, bare number, concatenation split at a brace-balanced point} x {as written, lower, upper, mixed case} x {no, single-space, LF, CRLF whitespace} x trailing comma (a seeded sample of the 384 layouts per database: 6 quick, 18 thorough); '
         'random: databases of <= 12 items (entries with <= 5 fields incl. author/editor person lists of structured persons, @string chains, @preamble, @comment, junk text, repeated keys, duplicate fields differing in case) under random layouts incl. arbitrary Unicode whitespace between tokens; '
-        'normalize_whitespace on all strings of length <= 6 over {a, space, LF, NBSP}. distinct = distinct (function, argument); non-trivial = at least one entry read.')
+        'history: 1-2 earlier readings in the same process (sources that redefine month macros, define other @string names, contain errors), then a rendering (optionally followed by an entry that uses a macro only an earlier source defined): as independent parse_string calls / independent Parser() instances the last reading must equal the model\'s reading of that source alone and denote_py; with ONE Parser instance reading all the strings the macros, entries and preamble accumulate (model parse_bib_seq, denote_py of the concatenation); normalize_whitespace on all strings of length <= 6 over {a, space, LF, NBSP}. distinct = distinct (function, argument); non-trivial = at least one entry read.')
 EXHAUSTIVE = {'quick': 'all 4234 abstract databases of the small scope, each under 6 of the 384 layouts (seeded sample); normalize_whitespace: all strings of length <= 6 over a 4-symbol alphabet',
               'thorough': 'all 4234 abstract databases of the small scope, each under 18 of the 384 layouts (seeded sample)'}
 TRUSTED_BASE = ['modelled (not verified) code: as for C10 (LowLevelParser, Parser, Scanner, normalize_whitespace, add_entry, split_name_list, Person)',
@@ -450,6 +511,24 @@ def gen(tier, rng):
             yield ('random', 10, [w, lay])
         if i % 5 == 0:
             yield ('lowlevel', 11, [w, lay])
+    # history: earlier readings in the same process, then the reading that is compared
+    RAW = ['@string{jan = "Jan."}', '@string{JAN = {X}} @string{mm = "other"} @string{Pub = 7}', '@string{newmacro = "N"} @a{k1, t = newmacro, month = mar}',
+           '@string{feb = 1} @a{k, t = ', '@preamble{"p"} @string{dec = "D" # jan} @string{x1 = dec}', '@a{k1, month = jan, author = {A, B, C, D}, month = feb}',
+           '@string{may = may # "!"}@a{k2}', 'junk @comment{x} @string(sep = undefined) @a(k1)']
+    SUFFIX = ['', '', '', '\n@misc{leak, note = newmacro # jan}', '\n@misc{leak2, month = FEB # mm # dec}', '\n@misc{leak3, note = x1 # Pub}']
+    month_items = [['E', 'misc', 'm1', [['F', 'month', [['M', m]]] for m in ('jan',)] + [['F', 'note', [['M', 'FEB'], ['T', ' '], ['M', 'Dec'], ['M', 'may']]]]]]
+    nh = 400 if tier == 'quick' else 4000
+    for i in range(nh):
+        kind = i % 3
+        items = month_items if i % 4 == 0 else random_db(rng)
+        lay = [rng.choice([0, 1, 2]), rng.choice([0, 1, 2, 3, 4]), rng.choice([0, 1, 2, 3]), rng.choice([0, 1, 2, 3, 4]), rng.choice([0, 1]), rng.randint(0, 10 ** 6)]
+        earlier = []
+        for _ in range(rng.choice([1, 1, 2])):
+            if kind == 2 and rng.random() < 0.6 or rng.random() < 0.25:
+                earlier.append([ord('D'), encode_items(random_db(rng)), [rng.choice([0, 1, 2]), rng.choice([0, 1, 3]), rng.choice([0, 1, 2, 3]), rng.choice([0, 1, 2, 3]), 0, rng.randint(0, 10 ** 6)]])
+            else:
+                earlier.append([ord('R'), rng.choice(RAW)])
+        yield ('history', 12, [kind, earlier, encode_items(items), lay, rng.choice(SUFFIX)])
     # values nested up to the limit of 100 levels (the outer delimiter is level 0)
     for d in (98, 99, 100):
         deep = '{' * d + 'x' + '}' * d
